@@ -353,7 +353,7 @@ func jobsFor(prop, tier string) []Job {
 			mk("c16-n4-lens", params("N", 4, "KL", 0, "STEP", 3)),
 			mk("c16-n2-decode", params("N", 2, "KL", 5, "STEP", 4, "DECODE", 1)),
 			mk("c16-n100-sym2", params("N", 100, "KL", 7, "STEP", 1, "SYM", 2)),
-			mk("c16-n3-nonmember", params("N", 3, "KL", 2, "STEP", 3, "NONMEMBER", 1)),
+			mk("c16-n2-nonmember", params("N", 2, "KL", 2, "STEP", 3, "NONMEMBER", 1)),
 		}
 		if thorough {
 			js = append(js,
@@ -361,6 +361,7 @@ func jobsFor(prop, tier string) []Job {
 				mk("c16-n6-long", params("N", 6, "KL", 4, "STEP", 1)),
 				mk("c16-n5000-sym2", params("N", 5000, "KL", 8, "STEP", 1, "SYM", 2)),
 				mk("c16-n4-decode", params("N", 4, "KL", 2, "STEP", 3, "DECODE", 1, "DUP", 1)),
+				mk("c16-n3-nonmember", params("N", 3, "KL", 2, "STEP", 3, "NONMEMBER", 1)),
 			)
 		}
 	case "C17":
